@@ -131,6 +131,23 @@ def run(tier, seed):
         run.count({"stream": s, "n": len(data)}, False, ["stream"])
         if why:
             run.fail({"schema": s, "values": [to_wire(v) for v in data], "opts": opts}, why, kind="oracle")
+    # ---- omitted bytes / fixed fields whose default is the JSON string the specification prescribes
+    import io as _io
+    for ftype, dflt, want in (("bytes", "\u00ffa", b"\xffa"), ({"type": "fixed", "name": "Fx", "size": 2}, "ab", b"ab")):
+        sch = {"type": "record", "name": "R", "fields": [{"name": "i", "type": "int"}, {"name": "b", "type": ftype, "default": dflt}]}
+        run.cov["evaluations"] += 1
+        run.tag("bytes-default-omitted")
+        try:
+            fo = _io.BytesIO()
+            fastavro.schemaless_writer(fo, sch, {"i": 1})
+            back = fastavro.schemaless_reader(_io.BytesIO(fo.getvalue()), sch)
+            okv = back == {"i": 1, "b": want}
+            got = repr(back)
+        except Exception as e:  # noqa
+            okv, got = False, repr(e)
+        if not okv:
+            run.fail({"schema": sch, "value": {"i": 1}, "got": got[:200], "tags": ["bytes-default-omitted"]},
+                     "omitted bytes/fixed field: the datum is not written with the schema default", kind="oracle")
     return run.finish()
 
 
